@@ -461,6 +461,17 @@ def e12(rep, src):
                         env[nm] = ["nested." + fl["name"] + "*"] if fl["name"] in ("conditions", "results") else "nested." + fl["name"]
                     return run_block(a["body"], env)
             raise Und("no arm for ast::Expr::Case")
+        if e["k"] == "if" and e["cond"]["k"] == "letcond":
+            # `if let ast::Expr::Case { .. } = <else operand> { merged } else { plain }`: the `match` written as if-let
+            pt = e["cond"]["pat"]
+            while pt["k"] == "ref":
+                pt = pt["pat"]
+            if pt["k"] == "struct" and pt["path"]["segs"][-1] == "Case":
+                for fl in pt["fields"]:
+                    nm = fl["pat"]["name"] if fl["pat"]["k"] == "ident" else fl["name"]
+                    env[nm] = ["nested." + fl["name"] + "*"] if fl["name"] in ("conditions", "results") else "nested." + fl["name"]
+                return run_block(e["then"], env)
+            raise Und("if-let on another pattern than ast::Expr::Case")
         if e["k"] == "block":
             return run_block(e, env)
         if e["k"] == "mcall" and e["m"] in ("extend", "push", "append") and e["recv"]["k"] == "path" and isinstance(env.get(e["recv"]["p"]), list):
